@@ -228,9 +228,10 @@ def register(PROPS, COMPONENTS):
         lean_files=["ConcVerif/Props/C07.lean"], components=names, stage="B", pre=selftest_hb,
         level_text="Lean 4 theorems (kernel-checked; any number of threads, locations and events) over a generic event model of "
                    "mutex / shared-mutex / condition-variable / atomic (with the memory order written in the source) / plain / "
-                   "thread events: (i) the executable vector-clock race checker that is run on every observed trace is sound for "
-                   "the declarative happens-before relation (C++20 release sequences, unlock->lock edges except "
-                   "unlock_shared->lock_shared, spawn/join): if it accepts, every pair of conflicting plain accesses is ordered; "
+                   "thread events: (i) the executable vector-clock race checker that is run on every observed trace DECIDES the "
+                   "declarative happens-before relation (C++20 release sequences, unlock->lock edges except "
+                   "unlock_shared->lock_shared, spawn/join): it accepts iff every pair of conflicting plain accesses is ordered "
+                   "(soundness and completeness; vector clocks reflect happens-before exactly); "
                    "(ii) lockset theorem: in every trace consistent with mutex semantics, if every access to a location is made "
                    "under one mutex (exclusive for writes) then each access happens-after every earlier conflicting access; "
                    "(iii) publication theorem: a plain write before a release/seq_cst store or RMW happens-before a plain read "
